@@ -45,6 +45,27 @@ ITEMS = [
     Fn(DT, 'impl UTCOffset > fn to_seconds', name='UTCOffset::to_seconds', wrap='impl UTCOffset',
        requires=[('valid', 'self.hh < 24 && self.mm < 60')],
        ensures=[('signed', 'r == (if self.positive { self.hh * 3600 + self.mm * 60 } else { -(self.hh * 3600 + self.mm * 60) })')]),
+    Type(DEC, 'const NUM_DIGITS'),
+    Type(DEC, 'struct Decimal', attrs=DERIVE),
+    Fn(DEC, 'impl Decimal > fn from_str', name='Decimal::from_str', wrap='impl Decimal', vis='pub',
+       sig_rewrites=[(r'str: impl AsRef<str>', 'str: &str', 1)],
+       rewrites=[(r'(?s)let caps = constants::DECIMAL_REGEX.*?let r_str = caps.*?\.as_str\(\);', 'let (l_str, r_str) = match vx_decimal_caps(str) { Some(c) => c, None => { return Err(vx_failed_parse(str)); } };', 1),
+                 (r'i64::from_str\((l_str|r_str)\)\.map_err\(\|_\| Error::Overflow\)\?', r'vx_parse_i64(\1).map_err(|_e: ()| -> (e: Error) ensures e is Overflow { Error::Overflow })?', 2),
+                 (r'r_str\.len\(\)\.try_into\(\)\.map_err\(\|_\| Error::Overflow\)\?', 'vx_len_u32(r_str).map_err(|_e: ()| -> (e: Error) ensures e is Overflow { Error::Overflow })?', 1),
+                 (r'Error::TooManyDigits\(str\.as_ref\(\)\.to_string\(\)\)', 'vx_too_many(str)', 1),
+                 (r"l_str\.starts_with\('-'\)", 'vx_starts_with_minus(l_str)', 1),
+                 ClosureRw(r'value', 'value: i64', 'Self', ensures='d.value == value', rname='d', count=1)],
+       ensures=[('no_match', 'vx_spec_caps(str) is None ==> r is Err'),
+                ('too_many_digits', 'vx_spec_caps(str) is Some && str_len(vx_spec_caps(str)->Some_0.1) > 4 ==> r is Err'),
+                ('ok_iff', 'vx_spec_caps(str) is Some && str_len(vx_spec_caps(str)->Some_0.1) <= 4 ==> (r is Ok <==> dec_fits(vx_spec_caps(str)->Some_0.0, vx_spec_caps(str)->Some_0.1))'),
+                ('value', 'vx_spec_caps(str) is Some && r is Ok ==> r->Ok_0.value == dec_value(vx_spec_caps(str)->Some_0.0, vx_spec_caps(str)->Some_0.1)')],
+       proof_start='proof { reveal_with_fuel(vstd::arithmetic::power::pow, 6); assert(vstd::arithmetic::power::pow(10, 4) == 10000); }',
+       hints=[(r'let r = checked_mul_pow\(r, NUM_DIGITS - len\)\?;', '''proof {
+            assert(l == str_int(l_str) * 10000);
+            assert(r == str_int(r_str) * p10((4 - str_len(r_str)) as nat));
+            assert(vx_spec_caps(str) == Some((l_str, r_str)));
+        }''')]),
+
     Fn(DEC, 'fn checked_mul_pow',
        requires=[('digits', 'y <= 4')],
        proof_start='proof { reveal_with_fuel(vstd::arithmetic::power::pow, 6); assert(vstd::arithmetic::power::pow(10, y as nat) <= 10000); }',
